@@ -302,6 +302,48 @@ def received_header_rules(ctx, rule="R4"):
              'stored header %s' % B_.describe(hh, 8))
 
 
+def header_writer_rules(ctx, rule='R4'):
+    """The header byte the drivers transmit is pk.header: port in bits 7..4, channel in bits 1..0, bits 3..2 set; it is refreshed by
+    every way of setting port or channel (property setters, set_header).  Shared with C17: the stop / priority-release commands differ
+    from the set-points only in the channel."""
+    m = ctx.model
+    pkc = m.cls(ST, 'CRTPPacket')
+    uh = pkc.method('_update_header')
+    st = [s for s in walk_own(uh.node) if isinstance(s, ast.Assign) and norm(s.targets[0]) == 'self.header']
+    ctx.need(len(st) == 1, '_update_header: header store not found')
+    scope = Scope.of(uh)
+    hb = B_.evaluate(st[0].value, scope, {'self._port': 'port', 'self.channel': 'channel', 'self._channel': 'channel'})
+    ctx.inst(rule, uh, 'port-bits-7..4', B_.is_input_field(hb, 4, 4, 'port'), 'header bits: %s' % B_.describe(hb, 8))
+    ctx.inst(rule, uh, 'channel-bits-1..0', B_.is_input_field(hb, 0, 2, 'channel'), 'header bits: %s' % B_.describe(hb, 8))
+    ctx.inst(rule, uh, 'link-bits-3..2', hb[2] == 1 and hb[3] == 1, 'bits 3..2 must be set (legacy bootloader); header bits: %s' % B_.describe(hb, 8))
+    ctx.inst(rule, uh, 'one-byte', all(b == 0 for b in hb[8:]), 'header must fit one byte')
+    init = pkc.method('__init__')
+    received_header_rules(ctx, rule)
+    for setter, attr in (('_set_port', 'self._port'), ('_set_channel', 'self._channel')):
+        f = pkc.method(setter)
+        gst = cfg_of(f)
+        stn = [n for n in gst.nodes if n.kind == 'stmt' and isinstance(n.ast, ast.Assign) and norm(n.ast.targets[0]) == attr and norm(n.ast.value) == f.params[1]]
+        upn = [n for n, c in gst.find(lambda q: method_call(q, '_update_header'))]
+        okc = len(stn) == 1 and len(upn) >= 1 and all(gst.dominates(stn[0], u) for u in upn) and ('n', upn[-1].id) in (gst.dom().get(('n', gst.exit.id)) or ())
+        ctx.inst(rule, f, 'setter-updates-header', okc, '%s must store the value and THEN refresh the cached header byte (the drivers transmit pk.header, not get_header())' % setter)
+        # every value of the header field is legal: a range check in the setter must not turn one away (port 15 is LINKCTRL)
+        legal = range(16) if setter == '_set_port' else range(4)
+        bad = leaves_for_legal_value(f, f.params[1], legal)
+        ctx.inst(rule, f, 'setter-takes-every-legal-value', not bad, '%s refuses %s (line %s): every port 0..15 / channel 0..3 has a header encoding' %
+                 (setter, bad[0][1] if bad else None, bad[0][0].line if bad else None))
+    props = {k: norm(v) for k, v in pkc.consts.items()}
+    ctx.inst(rule, (ST, 'CRTPPacket'), 'properties', props.get('port') == 'property(_get_port, _set_port)' and
+             props.get('channel') == 'property(_get_channel, _set_channel)', 'port/channel properties: %s' % {k: props.get(k) for k in ('port', 'channel')})
+    sh = pkc.method('set_header')
+    stsh = [norm(s) for s in sh.node.body if isinstance(s, (ast.Assign, ast.Expr)) and not isinstance(getattr(s, 'value', None), ast.Constant)]
+    # the header byte is refreshed after BOTH fields are stored: by an explicit _update_header() at the end, or because the last store
+    # goes through a property setter (which refreshes, see setter-updates-header) and the other field was stored before it
+    fld_st = [t for t in stsh if t in ('self._port = port', 'self.port = port', 'self.channel = channel', 'self._channel = channel')]
+    both = len(fld_st) == 2 and {t.split(' = ')[1] for t in fld_st} == {'port', 'channel'}
+    refreshed = both and ((stsh and stsh[-1] == 'self._update_header()' and stsh.index(fld_st[-1]) < len(stsh) - 1) or fld_st[-1] in ('self.port = port', 'self.channel = channel') and stsh[-1] == fld_st[-1])
+    ctx.inst(rule, sh, 'set_header', both and refreshed, 'set_header(port, channel) must store both and refresh the header after the second store; body %s' % stsh)
+
+
 def packet_contract_rules(ctx, rule='R4', size=True):
     """What every user of CRTPPacket takes for granted (the packet class is a dependency of every protocol module; shared with C01,
     C05, C07, C10, C18): the fields of a received header are decoded the same way for all 256 header bytes; the payload of a new packet
@@ -506,41 +548,9 @@ def check(ctx):
         ctx.inst('R3', lh, 'raise-before-build', ok, 'no packet may be built after a refusal')
 
     # ---- R4: header byte --------------------------------------------------------------
+    header_writer_rules(ctx, 'R4')
     pkc = m.cls(ST, 'CRTPPacket')
-    uh = pkc.method('_update_header')
-    st = [s for s in walk_own(uh.node) if isinstance(s, ast.Assign) and norm(s.targets[0]) == 'self.header']
-    ctx.need(len(st) == 1, '_update_header: header store not found')
-    scope = Scope.of(uh)
-    hb = B_.evaluate(st[0].value, scope, {'self._port': 'port', 'self.channel': 'channel', 'self._channel': 'channel'})
-    ctx.inst('R4', uh, 'port-bits-7..4', B_.is_input_field(hb, 4, 4, 'port'), 'header bits: %s' % B_.describe(hb, 8))
-    ctx.inst('R4', uh, 'channel-bits-1..0', B_.is_input_field(hb, 0, 2, 'channel'), 'header bits: %s' % B_.describe(hb, 8))
-    ctx.inst('R4', uh, 'link-bits-3..2', hb[2] == 1 and hb[3] == 1, 'bits 3..2 must be set (legacy bootloader); header bits: %s' % B_.describe(hb, 8))
-    ctx.inst('R4', uh, 'one-byte', all(b == 0 for b in hb[8:]), 'header must fit one byte')
     init = pkc.method('__init__')
-    received_header_rules(ctx, 'R4')
-    for setter, attr in (('_set_port', 'self._port'), ('_set_channel', 'self._channel')):
-        f = pkc.method(setter)
-        gst = cfg_of(f)
-        stn = [n for n in gst.nodes if n.kind == 'stmt' and isinstance(n.ast, ast.Assign) and norm(n.ast.targets[0]) == attr and norm(n.ast.value) == f.params[1]]
-        upn = [n for n, c in gst.find(lambda q: method_call(q, '_update_header'))]
-        okc = len(stn) == 1 and len(upn) >= 1 and all(gst.dominates(stn[0], u) for u in upn) and ('n', upn[-1].id) in (gst.dom().get(('n', gst.exit.id)) or ())
-        ctx.inst('R4', f, 'setter-updates-header', okc, '%s must store the value and THEN refresh the cached header byte (the drivers transmit pk.header, not get_header())' % setter)
-        # every value of the header field is legal: a range check in the setter must not turn one away (port 15 is LINKCTRL)
-        legal = range(16) if setter == '_set_port' else range(4)
-        bad = leaves_for_legal_value(f, f.params[1], legal)
-        ctx.inst('R4', f, 'setter-takes-every-legal-value', not bad, '%s refuses %s (line %s): every port 0..15 / channel 0..3 has a header encoding' %
-                 (setter, bad[0][1] if bad else None, bad[0][0].line if bad else None))
-    props = {k: norm(v) for k, v in pkc.consts.items()}
-    ctx.inst('R4', (ST, 'CRTPPacket'), 'properties', props.get('port') == 'property(_get_port, _set_port)' and
-             props.get('channel') == 'property(_get_channel, _set_channel)', 'port/channel properties: %s' % {k: props.get(k) for k in ('port', 'channel')})
-    sh = pkc.method('set_header')
-    stsh = [norm(s) for s in sh.node.body if isinstance(s, (ast.Assign, ast.Expr)) and not isinstance(getattr(s, 'value', None), ast.Constant)]
-    # the header byte is refreshed after BOTH fields are stored: by an explicit _update_header() at the end, or because the last store
-    # goes through a property setter (which refreshes, see setter-updates-header) and the other field was stored before it
-    fld_st = [t for t in stsh if t in ('self._port = port', 'self.port = port', 'self.channel = channel', 'self._channel = channel')]
-    both = len(fld_st) == 2 and {t.split(' = ')[1] for t in fld_st} == {'port', 'channel'}
-    refreshed = both and ((stsh and stsh[-1] == 'self._update_header()' and stsh.index(fld_st[-1]) < len(stsh) - 1) or fld_st[-1] in ('self.port = port', 'self.channel = channel') and stsh[-1] == fld_st[-1])
-    ctx.inst('R4', sh, 'set_header', both and refreshed, 'set_header(port, channel) must store both and refresh the header after the second store; body %s' % stsh)
     # size check chain
     spf = m.func(CF, 'Crazyflie.send_packet')
     g = cfg_of(spf)
